@@ -52,7 +52,7 @@ class C06(OptEngineBase):
     PROBES = [
         "fixed_isolated", "all_fixed", "none_fixed", "fixed_landmark", "unfix_between_calls",
         "first_vertex_not_min_id", "nan_outcome", "diverged_outcome", "singular_natural", "solver_raise_fired",
-        "i3_checked", "i3_skipped_illcond", "stdout_fail_fired", "multi_component", "singular_raised_as_error", "i3_trajectory_step", "aliased_pose_objects", "fixed_satellite_pose", "fixed_vertex_moved_by_user_between_calls", "graph_pickled_or_deepcopied_between_calls", "multi_iteration_end_state_checked",
+        "i3_checked", "i3_skipped_illcond", "stdout_fail_fired", "multi_component", "singular_raised_as_error", "i3_trajectory_step", "aliased_pose_objects", "fixed_satellite_pose", "fixed_vertex_moved_by_user_between_calls", "graph_pickled_or_deepcopied_between_calls", "multi_iteration_end_state_checked", "integer_fixed_flags",
     ]
 
     # ------------------------------------------------------------------ generate
@@ -88,6 +88,8 @@ class C06(OptEngineBase):
         for v in verts:
             v["fixed"] = v["id"] in fixed
         meta["fixed_class"] = cls
+        if rng.random() < 0.15:
+            meta["int_flags"] = True  # flags as they come out of a CSV column: 0 / 1 instead of False / True
         n_ops = rng.choice([1, 1, 2, 2, 3, 4, 5, 6, 8])
         ops = []
         for k in range(n_ops):
@@ -139,6 +141,11 @@ class C06(OptEngineBase):
         with World(case.get("config"), None if dry else case.get("faults"), log) as w:
             g = graphs.build(case["workload"])
             verts = g._vertices
+            if meta.get("int_flags"):
+                for v in verts:
+                    v.fixed = int(bool(v.fixed))
+                if not dry:
+                    res.probe("integer_fixed_flags")
             by_id = {v.id: v for v in verts}
             types = [graphs.type_name(v.pose) for v in verts]
             model = {v.id for v in verts if v.fixed}
@@ -160,7 +167,7 @@ class C06(OptEngineBase):
                     if v is None:
                         sig_ops.append("set_fixed:skip")
                         continue
-                    v.fixed = bool(op["value"])
+                    v.fixed = int(bool(op["value"])) if meta.get("int_flags") else bool(op["value"])
                     if op["value"]:
                         model.add(v.id)
                     else:
